@@ -21,6 +21,7 @@ pub struct Ctx {
     pub rule: String,
     pub notes: Vec<String>,
     pub impl_only: u64,
+    pub free_cases: u64,
 }
 
 impl Ctx {
@@ -36,6 +37,7 @@ impl Ctx {
             rule: String::new(),
             notes: vec![],
             impl_only: 0,
+            free_cases: 0,
         }
     }
 
@@ -52,6 +54,11 @@ impl Ctx {
     /// An implementation-level property failure (oracle), independent of the model.
     pub fn violation(&mut self, property: &str, what: &str, attrs: Value) {
         self.violations.push(json!({"property": property, "what": what, "attrs": attrs, "family": self.family}));
+    }
+
+    /// A case explored by an implementation-only family (counts towards distinct_nontrivial by its attrs).
+    pub fn case_free(&mut self) {
+        self.free_cases += 1;
     }
 
     /// Count an implementation-only oracle evaluation (no model request).
@@ -144,7 +151,7 @@ impl Ctx {
             "tier": if self.thorough {"thorough"} else {"quick"},
             "evaluations": self.cases.len() as u64 + self.impl_only,
             "model_requests": self.cases.len(),
-            "distinct_nontrivial": distinct.len(),
+            "distinct_nontrivial": distinct.len() as u64 + self.free_cases,
             "rule": self.rule,
             "n_disagreements": n_dis,
             "disagreements": disagreements,
